@@ -154,8 +154,16 @@ def explore_project(prop, proj, sched_seeds, w, d, want_seq=True, want_exec=Fals
     res = run_simc(SIMC, pdir, w, ["--sched", "default", "--pyc", pyc])
     runs.append({"kind": "default", "seed": 0, "res": res, "pyc": pyc})
     for i, s in enumerate(sched_seeds):
-        extra = ["--sched", "swarm", "--seed", str(s)] + extra_args
-        rec = {"kind": "swarm", "seed": s}
+        if isinstance(s, dict):
+            # an explicit schedule: the deviations from the default policy, nothing drawn
+            df = os.path.join(d, f"devs_{i}.json")
+            with open(df, "w") as fh:
+                json.dump(s["deviations"], fh)
+            extra = ["--sched", "explicit", "--devs-in", df] + extra_args
+            s = 0
+        else:
+            extra = ["--sched", "swarm", "--seed", str(s)] + extra_args
+        rec = {"kind": "swarm" if s else "explicit", "seed": s}
         if want_exec and i < 2:
             rec["pyc"] = os.path.join(pdir, f"out_{i}.pyc")
             extra += ["--pyc", rec["pyc"]]
@@ -479,6 +487,35 @@ def minimise(prop, proj, seeds, bad, w, d, budget_s=120):
     return cur, seeds, bad, sig
 
 
+def minimise_schedule(prop, proj, seeds, bad, w, d, sig, budget):
+    """the failing seeded schedule as an explicit list of deviations from the default policy
+    (choices of who runs, injected faults), delta-debugged while the same violation persists.
+    Returns None when the failure does not come from a seeded run or does not replay explicitly."""
+    fseeds = [b["seed"] for b in bad if b.get("seed") and b.get("run", "").startswith("swarm")]
+    if not fseeds:
+        return None
+    seed = fseeds[0]
+    pdir = os.path.join(d, "proj")
+    write_project(proj, pdir)
+    binary = ASAN_BIN if proj.get("_asan") else SIMC
+    res = run_simc(binary, pdir, w, ["--sched", "swarm", "--seed", str(seed)])
+    devs = res.get("deviations")
+    if devs is None:
+        return None
+
+    def fails(ds):
+        ok, b = still_fails(prop, proj, [{"deviations": ds}], w, d, sig, budget)
+        return ok
+
+    if not fails(devs):
+        return None
+    n0 = len(devs)
+    if budget["left"] > 2:
+        devs = ddmin(devs, lambda sub: budget["left"] > 0 and fails(sub), max_tests=max(1, budget["left"]))
+    log(f"      schedule of seed {seed}: {n0} deviations -> {len(devs)}")
+    return devs
+
+
 def c20_judge_relaxed(proj, runs):
     return c20_judge(proj, runs)
 
@@ -602,15 +639,23 @@ def run_check(prop, tier, seed, replay=None):
             avg_steps = max(1, sum(x["steps"] for x in r["stats"]) // max(1, len(r["stats"])))
             budget = max(3, min(60 if tier == "quick" else 250, 3_000_000 // avg_steps))
             proj, seeds2, bad, sig = minimise(prop, r["proj"], seeds, r["bad"], w, d, budget_s=budget)
+            devs = minimise_schedule(prop, proj, seeds2, bad, w, d, sig, {"left": max(3, budget // 2)})
             return {"idx": r["idx"], "proj": proj, "seeds": seeds2, "bad": bad, "sig": sig,
-                    "orig_shape": r["proj"]["shape"]}
+                    "orig_shape": r["proj"]["shape"], "deviations": devs}
         minis = pool.map(mini, failing[:64])
         nviol = 0
         seen_sigs = set()
         for m in minis:
             e = match_known(prop, m["proj"], m["sig"], m["bad"], known)
             if e:
-                report.known(e)
+                report.known(e, replay={
+                    "engine": "simc", "verif_seed": seed, "project_index": m["idx"],
+                    "workload": {"files": m["proj"]["files"], "tags": m["proj"]["tags"],
+                                 "tags_required": m["proj"].get("tags_required", m["proj"]["tags"]),
+                                 "errors": m["proj"].get("errors", []), "expect": m["proj"].get("expect")},
+                    "schedule_seeds": m["seeds"], "asan": bool(m["proj"].get("_asan")),
+                    "deviations": m.get("deviations"),
+                    "expect": {"clauses": m["sig"], "first": m["bad"][0] if m["bad"] else None}})
                 continue
             key = (tuple(m["sig"]), sha(m["proj"]["files"]))
             if key in seen_sigs:
@@ -623,6 +668,9 @@ def run_check(prop, tier, seed, replay=None):
                              "tags_required": m["proj"].get("tags_required", m["proj"]["tags"]),
                              "errors": m["proj"].get("errors", []), "expect": m["proj"].get("expect")},
                 "schedule_seeds": m["seeds"], "asan": bool(m["proj"].get("_asan")),
+                # the minimised schedule and fault trace: deviations from the default policy (replayed in
+                # explicit mode); null when the failure needs no seeded schedule or did not replay explicitly
+                "deviations": m.get("deviations"),
                 "expect": {"clauses": m["sig"], "first": m["bad"][0] if m["bad"] else None},
             })
             report.violation(f'clauses={m["sig"]} shape={m["orig_shape"]} '
@@ -712,7 +760,8 @@ def replay_file(prop, path, report):
     pool = Pool(prop.lower(), workers=1)
     try:
         def go(_, w, d):
-            runs, _pd = explore_project(prop, proj, rp["schedule_seeds"], w, d, want_seq=True,
+            scheds = [{"deviations": rp["deviations"]}] if rp.get("deviations") is not None else rp["schedule_seeds"]
+            runs, _pd = explore_project(prop, proj, scheds, w, d, want_seq=True,
                                         want_exec=(prop == "C20"), asan_every=use_asan)
             return judge(prop, proj, runs)
         bad = pool.map(go, [0])[0]
